@@ -11,6 +11,8 @@ pub struct Prediction {
     pub removed: Vec<u32>,
     /// (inserted text id, right neighbour id): which of the two survives a merge is not pinned
     pub lenient_pair: Option<(u32, u32)>,
+    /// other outcomes the property leaves open (e.g. the fate of an attribute node whose key already exists)
+    pub alternatives: Vec<Prediction>,
 }
 
 fn contains(a: &A, id: u32) -> bool {
@@ -138,7 +140,7 @@ pub fn predict(w: &World, forest: &[A], op: &Op) -> Option<Prediction> {
     let mut m = M { forest: forest.to_vec(), consolidate: w.consolidation, removed: vec![], lenient_pair: None };
     let id = |h: &H| *h as u32 + 1;
     let get = |h: &H| find(forest, *h as u32 + 1);
-    let done = |m: M| Some(Prediction { forest: m.forest, removed: m.removed, lenient_pair: m.lenient_pair });
+    let done = |m: M| Some(Prediction { forest: m.forest, removed: m.removed, lenient_pair: m.lenient_pair, alternatives: vec![] });
     match op {
         Append(p, c) | Prepend(p, c) => {
             let (pn, cn) = (get(p)?, get(c)?);
@@ -503,7 +505,36 @@ pub fn predict(w: &World, forest: &[A], op: &Op) -> Option<Prediction> {
                 } else {
                     em.nss.iter_mut().find(|x| x.id == exid)?.ns = an.ns.clone();
                 }
-                return done(m);
+                // The entry that holds the key keeps its node and position and takes the value. What becomes of the
+                // node that was passed in is not pinned by the property: it may stay where it was (main prediction),
+                // be consumed (removed), or be left detached.
+                let mut alts = vec![];
+                for consumed in [true, false] {
+                    let mut f2 = m.forest.clone();
+                    let was_root = f2.iter().position(|t| t.id == an.id);
+                    if let Some(i) = was_root {
+                        if !consumed {
+                            continue; // detached == stays where it was
+                        }
+                        f2.remove(i);
+                    } else {
+                        let pid = parent_of(forest, an.id)?;
+                        let pm = node_mut(&mut f2, pid)?;
+                        pm.attrs.retain(|x| x.id != an.id);
+                        pm.nss.retain(|x| x.id != an.id);
+                        if !consumed {
+                            f2.push(an.clone());
+                        }
+                    }
+                    let mut removed = m.removed.clone();
+                    if consumed {
+                        removed.push(an.id);
+                    }
+                    alts.push(Prediction { forest: f2, removed, lenient_pair: None, alternatives: vec![] });
+                }
+                let mut p = done(m)?;
+                p.alternatives = alts;
+                return Some(p);
             }
             // move the node
             let node = an.clone();
